@@ -22,7 +22,10 @@ fn sizes(mode: u8) -> Vec<usize> {
     }
 }
 
+static WRITER_DONE: std::sync::atomic::AtomicBool = std::sync::atomic::AtomicBool::new(false);
+
 fn socket_pair(data: &[u8], mode: u8) -> Option<(humphrey::stream::Stream, std::thread::JoinHandle<()>)> {
+    WRITER_DONE.store(false, std::sync::atomic::Ordering::SeqCst);
     let l = TcpListener::bind("127.0.0.1:0").ok()?;
     let addr = l.local_addr().ok()?;
     let data = data.to_vec();
@@ -37,6 +40,7 @@ fn socket_pair(data: &[u8], mode: u8) -> Option<(humphrey::stream::Stream, std::
                 let _ = c.write_all(&data);
             }
             let _ = c.shutdown(std::net::Shutdown::Write);
+            WRITER_DONE.store(true, std::sync::atomic::Ordering::SeqCst);
             // keep the socket open until the reader is done (it closes its end)
             let mut sink = [0u8; 1024];
             use std::io::Read;
@@ -95,11 +99,13 @@ pub fn parser_target(target: u8, mode: u8, data: &[u8]) -> (bool, u8, String) {
                         humphrey_ws::restion::Restion::Ok(m) => break (true, 0, format!("msg {}", m.bytes().len())),
                         humphrey_ws::restion::Restion::Err(e) => break (false, 0, format!("{:?}", e)),
                         humphrey_ws::restion::Restion::None => {
-                            nones += 1;
-                            if nones > 400 {
+                            if WRITER_DONE.load(std::sync::atomic::Ordering::SeqCst) {
+                                nones += 1;
+                            }
+                            if nones > 6 {
                                 break (false, 1, "None (nothing more arrives)".into());
                             }
-                            std::thread::sleep(std::time::Duration::from_micros(500));
+                            std::thread::sleep(std::time::Duration::from_micros(300));
                         }
                     }
                 }
